@@ -70,6 +70,36 @@ def run(chk):
                 chk.violation("uriEqualsUri = %s but the components are %s" % (w[1], "identical" if want == "1" else "different"),
                               {"request": reqs[k], "a": args[i], "b": args[j], "build": fl, "impl": o})
             if fl == "A": nontrivial.add((i, j))
+    # ---- views of ONE buffer: the two objects share pointers (same first, different ends; overlapping ranges).  Equality
+    #      is about the component texts, never about where they are stored.
+    vreq = []; vmeta = []
+    vtexts = ["s://u@h:80/a/b?q#f", "http://example.org/docs/index.html", "s://h:8080", "a/b/c", "//h.org/x?key=value#top", "s://[::1]:8/a", "s:a/b?q"]
+    vfields = [enc_s(t) for t in vtexts]
+    vok = {}
+    cand = [(ti, off, ln) for ti, t in enumerate(vtexts) for off in (0, 1, 2) for ln in range(0, len(t) - off + 1)]
+    outs = lib.run_lines(mdl, ["parse %s 3" % enc_s(vtexts[ti][off:off + ln]) for ti, off, ln in cand])
+    for c_, o in zip(cand, outs):
+        if o.startswith("parse 0 "): vok[c_] = uris.Obj(o.split()[4:])
+    for ti in range(len(vtexts)):
+        views = [c_ for c_ in vok if c_[0] == ti]
+        prs = [(x, y) for x in views for y in views]
+        if chk.tier == "quick" and len(prs) > 1500: prs = chk.rng.sample(prs, 1500)
+        for x, y in prs:
+            vreq.append("equals S %s %d %d S %s %d %d" % (vfields[ti], x[1], x[2], vfields[ti], y[1], y[2])); vmeta.append((x, y))
+    vmodel = lib.run_lines(mdl, vreq)
+    for fl in ("A", "W", "A_asan"):
+        vimpl = lib.run_lines(exes[fl], vreq)
+        chk.cov["evaluations"] += len(vreq); chk.cov["traces_validated_against_impl"] += len(vreq)
+        for rq, (x, y), o, m in zip(vreq, vmeta, vimpl, vmodel):
+            if o != m: corr.append((rq, fl, o))
+            w = o.split()
+            if len(w) != 4 or w[0] != "equals":
+                chk.violation("crash / malformed result: " + o[:150], {"request": rq, "build": fl, "impl": o}); continue
+            want = "1" if vok[x].key() == vok[y].key() else "0"
+            if w[1] != want:
+                chk.violation("uriEqualsUri = %s for two URIs parsed from overlapping ranges of one buffer (%s and %s) whose components are %s"
+                              % (w[1], show(enc_s(vtexts[x[0]][x[1]:x[1] + x[2]])), show(enc_s(vtexts[y[0]][y[1]:y[1] + y[2]])), "identical" if want == "1" else "different"),
+                              {"request": rq, "build": fl, "impl": o})
     # ---- library-produced URIs: equal exactly when the recomposed texts are identical
     recipes = []
     srcs = ["s:/a/..", "s:/", "s:/a/.", "s:/a/", "s:a/..", "s:", "s://h/a/..", "s://h/", "s://h", "S://H/%41", "s://h/A", "a/b/..", "a/", "/a/../b", "/b", "//h/../b", "//h/b"]
@@ -129,8 +159,9 @@ def run(chk):
     for f in fnd.items:
         o = lib.run_lines(exes["A"], [f["witness_args"][0]])[0]
         steps, _ = uris.parse_hist(o)
-        objs = [s for s in steps if s.get("obj")]
-        still[f["shape"]] = any("eq" in s and s["eq"] == 0 for s in steps) and objs[-1]["text"] == objs[-2]["text"] if len(objs) >= 2 else False
+        toks = f["witness_args"][0].split()[1:]
+        res = [s for tok, s in zip(toks, steps) if tok[0] in "ar" and s.get("obj")]     # the two resolution results that are compared
+        still[f["shape"]] = (any("eq" in s and s["eq"] == 0 for s in steps) and res[-1]["text"] == res[-2]["text"]) if len(res) >= 2 else False
     fnd.report(chk, still)
     chk.cov["distinct_nontrivial"] = len(nontrivial)
     chk.cov["rule"] = "pool of raw objects differing in one component at a time (absent / empty / different / case; IPv4 and IPv6 by value; segment lists) and parsed texts; all ordered pairs (sampled to 120000 in the quick tier); NULL arguments; %d x %d pairs of library-produced objects (parse, normalize, make-owner, resolve, create-reference recipes) compared with their recomposed texts" % (len(recipes), len(recipes))
